@@ -37,8 +37,15 @@ def jsonable(obj, depth=0):
             seq = sorted(seq, key=repr)
         return [jsonable(v, depth + 1) for v in seq]
     if isinstance(obj, BaseException):
-        return {'__exc__': type(obj).__name__, 'msg': str(obj)[:300]}
-    return repr(obj)[:500]
+        try:
+            msg = str(obj)[:300]
+        except Exception:  # noqa  (an exception whose __str__ itself fails)
+            msg = '<unprintable>'
+        return {'__exc__': type(obj).__name__, 'msg': msg}
+    try:
+        return repr(obj)[:500]
+    except Exception:  # noqa
+        return '<unprintable %s>' % type(obj).__name__
 
 
 def unhex(obj):
